@@ -1735,4 +1735,141 @@ theorem creaderAll_ends (mem : Str) (f cursor : Nat) (hc : cursor ≤ mem.length
       rw [hl]
       exact ⟨_, rfl⟩
 
+/-! ## what the argv splitters write -/
+
+theorem onlyTerminated_refl (s : Str) : onlyTerminated s s = true := by
+  induction s with
+  | nil => rfl
+  | cons a as ih => simp [onlyTerminated, ih]
+
+theorem onlyTerminated_append (a b c d : Str) (h1 : onlyTerminated a b = true) (h2 : onlyTerminated c d = true) :
+    onlyTerminated (a ++ c) (b ++ d) = true := by
+  induction a generalizing b with
+  | nil =>
+    cases b with
+    | nil => simpa using h2
+    | cons y ys => simp [onlyTerminated] at h1
+  | cons x xs ih =>
+    cases b with
+    | nil => simp [onlyTerminated] at h1
+    | cons y ys =>
+      simp only [onlyTerminated, Bool.and_eq_true] at h1
+      simp only [List.cons_append, onlyTerminated, Bool.and_eq_true]
+      exact ⟨h1.1, ih ys h1.2⟩
+
+theorem skipWsZ_suffix (d d' : Str) (h : skipWsZ d = some d') : d' <:+ d := by
+  induction d with
+  | nil => simp [skipWsZ] at h
+  | cons c rest ih =>
+    simp only [skipWsZ] at h
+    split at h
+    · split at h
+      · exact (ih h).trans (List.suffix_cons _ _)
+      · cases h; exact List.suffix_refl _
+    · cases h; exact List.suffix_refl _
+
+theorem scanTokZ_suffix (d d' : Str) (h : scanTokZ d = some d') : d' <:+ d := by
+  induction d with
+  | nil => simp [scanTokZ] at h
+  | cons c rest ih =>
+    simp only [scanTokZ] at h
+    split at h
+    · exact (ih h).trans (List.suffix_cons _ _)
+    · cases h; exact List.suffix_refl _
+
+theorem take_append_suffix (data d2 : Str) (h : d2 <:+ data) :
+    data = data.take (data.length - d2.length) ++ d2 := by
+  obtain ⟨pre, hpre⟩ := h
+  subst hpre
+  simp
+
+theorem argvSplitGo_mem (argcmax f : Nat) (data : Str) (argc : Nat) (r : ArgvRes)
+    (h : argvSplitGo argcmax f data argc = some r) : onlyTerminated r.mem data = true := by
+  induction f generalizing data argc r with
+  | zero => simp [argvSplitGo] at h
+  | succ f ih =>
+    rw [argvSplitGo] at h
+    simp only [Option.bind_eq_bind, bind] at h
+    cases h1 : skipWsZ data with
+    | none => simp [h1] at h
+    | some d1 =>
+      simp only [h1, Option.bind_some] at h
+      cases hc : d1.head? with
+      | none => simp [hc] at h
+      | some c =>
+        simp only [hc, Option.bind_some] at h
+        split at h
+        · cases h; exact onlyTerminated_refl _
+        · cases h2 : scanTokZ d1 with
+          | none => simp [h2] at h
+          | some d2 =>
+            simp only [h2, Option.bind_some] at h
+            cases d2 with
+            | nil => simp at h
+            | cons c2 t2 =>
+              simp only [List.head?_cons, Option.bind_some, List.tail_cons] at h
+              split at h
+              · cases h; exact onlyTerminated_refl _
+              · rename_i hnz
+                split at h
+                · rename_i hws
+                  cases hr : argvSplitGo argcmax f t2 (argc + 1) with
+                  | none => simp [hr] at h
+                  | some r' =>
+                    simp only [hr, Option.bind_some, Option.some.injEq] at h
+                    subst h
+                    simp only
+                    have hsuf : (c2 :: t2) <:+ data := (scanTokZ_suffix _ _ h2).trans (skipWsZ_suffix _ _ h1)
+                    have hdata := take_append_suffix data (c2 :: t2) hsuf
+                    have hk : data.length - (c2 :: t2).length + 1 - 1 = data.length - (c2 :: t2).length := by omega
+                    rw [hk]
+                    conv => lhs; arg 2; rw [hdata]
+                    apply onlyTerminated_append _ _ _ _ (onlyTerminated_refl _)
+                    have hc2n : c2 ≠ NUL := by simpa using hnz
+                    have hw : isWsArgv c2 = true := by rw [← strchrHit_ws_of_ne c2 hc2n]; exact hws
+                    simp only [onlyTerminated, BEq.rfl, hw, Bool.and_self, Bool.or_true, Bool.true_and]
+                    exact ih _ _ _ hr
+                · cases h; exact onlyTerminated_refl _
+
+theorem argvSplitNGo_mem (argcmax f : Nat) (data : Str) (argc : Nat) (r : ArgvRes)
+    (h : argvSplitNGo argcmax f data argc = some r) : onlyTerminated r.mem data = true := by
+  induction f generalizing data argc r with
+  | zero => simp [argvSplitNGo] at h
+  | succ f ih =>
+    rw [argvSplitNGo] at h
+    simp only at h
+    split at h
+    · cases h; exact onlyTerminated_refl _
+    · rename_i c rest1 hd1
+      split at h
+      · cases h; exact onlyTerminated_refl _
+      · split at h
+        · cases h; exact onlyTerminated_refl _
+        · rename_i c2 rest2 hd2
+          split at h
+          · rename_i hws
+            cases hr : argvSplitNGo argcmax f rest2 (argc + 1) with
+            | none => simp [hr] at h
+            | some r' =>
+              simp only [hr, Option.some.injEq] at h
+              subst h
+              simp only
+              have hsuf : (c2 :: rest2) <:+ data := by
+                rw [← hd2]
+                exact (List.dropWhile_suffix _).trans (List.dropWhile_suffix _)
+              have hdata := take_append_suffix data (c2 :: rest2) hsuf
+              rw [hd2]
+              have hk : data.length - (c2 :: rest2).length + 1 - 1 = data.length - (c2 :: rest2).length := by omega
+              rw [hk]
+              conv => lhs; arg 2; rw [hdata]
+              apply onlyTerminated_append _ _ _ _ (onlyTerminated_refl _)
+              have hw : (c2 == NUL || isWsArgv c2) = true := by rw [← strchrHit_ws]; exact hws
+              simp only [onlyTerminated, BEq.rfl, Bool.true_and, Bool.and_eq_true, Bool.or_eq_true, beq_iff_eq]
+              refine ⟨?_, ih _ _ _ hr⟩
+              simp only [Bool.or_eq_true, beq_iff_eq] at hw
+              rcases hw with hw | hw
+              · exact Or.inl hw.symm
+              · exact Or.inr hw
+          · cases h; exact onlyTerminated_refl _
+
 end Igris.C19
